@@ -57,3 +57,43 @@ package consolidation
 //@   ensures [acceptedOnlyIfAllReplaced] result ==> noneReleasing(baseOf(scenario))
 //@   ensures [allReplacedAccepted] noneReleasingV(baseOf(scenario)) ==> result
 //@ end
+
+// ---- exec: the Execute loop (C05 / C06 / C03) -----------------------------------------------------------
+//@ define sessionJobsOK(ssn *framework.Session) bool = (forall k in ssn.ClusterInfo.PodGroupInfos :: podgroup_info.allTasksOK(ssn.ClusterInfo.PodGroupInfos[k]) && podgroup_info.setsOK(ssn.ClusterInfo.PodGroupInfos[k])) && (forall q in ssn.ClusterInfo.Queues :: ssn.ClusterInfo.Queues[q] != nil)
+
+// Glue around solvers.(*JobSolver).Solve (through attemptToConsolidatePreemptor). ASSUMED (trusted), see the note.
+// C06: "Every such eviction is committed together with the bind or nomination of the workload it was made
+// for": the statement handed back with success is the solver's statement and meets the preconditions of
+// (*Statement).Commit. The ghost mark common.failedAttempt records the outcome for the caller's table.
+//@ func attemptToConsolidateForPreemptor
+//@   props C05 C06 C03
+//@   trusted
+//@   note not verified: [successIsCommittable] is not derivable from the contract of (*JobSolver).Solve (its result0 is computed from the job's counters after whole-heap havocs; "solved ==> the returned statement is the open, well-formed, flat log of the last prefix" needs the unmechanised exact-restoration argument of C13 - helper solver). [outcomeRecorded] only defines the ghost mark.
+//@   requires ssn != nil && job != nil
+//@   modifies *
+//@   ensures [successIsCommittable] result0 ==> result1 != nil && framework.commitReady(result1) && framework.wfLog(result1) && framework.flatLog(result1)
+//@   ensures [outcomeRecorded] common.failedAttempt(job) == !result0
+//@ end
+
+// C05: "scheduling-signature skipping must only prune hopeless scenarios". Consolidation victims are every
+// preemptible job of the cluster, whatever the actor's queue (buildPreemptibleFilterFunc), so ONE action-wide
+// table of failed jobs is intended: the table is declared cluster-wide (assume below; this is what exempts it
+// from the one-queue discipline that preempt and reclaim must prove). A popped job is skipped only on the
+// answer of that table (IsEasierToSchedule [falseNamesStoredRepresentative]: it lost against a stored failed
+// job of its own signature), otherwise it is handed to attemptToConsolidateForPreemptor; stmt.Commit() is
+// reached only with a statement a successful attempt returned (preconditions of Commit, proved at the call
+// site); only a job whose attempt just failed is recorded (precondition [recordsOnlyFailedJobs] of
+// UpdateRepresentative, proved at the call site). No panic on any path (a non-empty order yields a job).
+//@ func (*consolidationAction).Execute
+//@   props C05 C06 C03
+//@   usestable
+//@   requires ssn != nil && ssn.ClusterInfo != nil && ssn.Config != nil && sessionJobsOK(ssn)
+//@   requires [queueDepthNotZero] ssn.GetJobsDepth("consolidation") != 0
+//@   assume forall r *common.MinimalJobRepresentatives :: common.clusterWide(r)
+//@   note assume: design decision made explicit - consolidation's victims do not depend on the actor's queue, its table of failed jobs is shared by all queues
+//@   modifies *
+//@   loop 1
+//@     modifies *
+//@     invariant [tableWellFormed] common.repsWF(smallestFailedJobs)
+//@ end
+// ---- end exec ----
